@@ -54,6 +54,13 @@ type History struct {
 	// how the serials / timestamps of the records were generated (fields.go); informational, the values are in the events
 	Serials string `json:"serials,omitempty"`
 	Stamps  string `json:"stamps,omitempty"`
+	// IdentPool: 0 = every login has an identity of its own (account, credential, client address all derived from its
+	// id); k > 0 = accounts, credentials and client addresses are drawn from a pool of k, so that different sshd
+	// processes log in with EQUAL credentials / from the same address (the same person or automation reconnecting);
+	// what still tells two logins apart is what tells two connections apart: the client port (and the log time)
+	IdentPool int `json:"ident_pool,omitempty"`
+	// a history of the volume family is a function of its compact description (volume.go); replays carry that
+	Vol *VolCase `json:"-"`
 }
 
 var otherTypes = []string{"USER_START", "USER_END", "SYSCALL", "USER_ACCT", "CRED_ACQ", "USER_CMD", "EXECVE", "USER_LOGIN", "CRED_REFR", "USER_AUTH"}
